@@ -195,6 +195,9 @@ type c16FE struct {
 	s    stop.Stopper
 }
 
+// the HTTP frontends' write_timeout; the "slow" gated scenarios shorten it so that a request outlives it
+var c16WriteTimeout = 2 * time.Minute
+
 func c16Start(kind int, logic frontend.TrackerLogic) *c16FE {
 	var last error
 	for attempt := 0; attempt < 30; attempt++ {
@@ -207,7 +210,7 @@ func c16Start(kind int, logic frontend.TrackerLogic) *c16FE {
 			}
 			last = err
 		} else {
-			f, err := httpfe.NewFrontend(logic, httpfe.Config{Addr: addr, ReadTimeout: 2 * time.Minute, WriteTimeout: 2 * time.Minute,
+			f, err := httpfe.NewFrontend(logic, httpfe.Config{Addr: addr, ReadTimeout: 2 * time.Minute, WriteTimeout: c16WriteTimeout,
 				AnnounceRoutes: []string{"/announce"}, ScrapeRoutes: []string{"/scrape"},
 				ParseOptions: httpfe.ParseOptions{MaxNumWant: 100, DefaultNumWant: 50, MaxScrapeInfoHashes: 50}})
 			if err == nil {
@@ -495,11 +498,17 @@ func c16Group(o *Out, kind string, ms []c16Mem_, order []int) {
 
 // ---------------------------------------------------------------- (a) gated hooks + Stop
 
-func c16Gated(o *Out, fe int, scrape bool, mode int) {
+func c16Gated(o *Out, fe int, scrape bool, mode int, slow bool) {
 	ps := c16Mem()
 	pre, post := newC16Gate(mode != 0), newC16Gate(false)
 	lg := newC16Logic(ps, []middleware.Hook{pre}, []middleware.Hook{post})
+	if slow {
+		// the request stays in its (gated) hook for three times the frontend's write timeout before Stop is
+		// called: it is still an accepted request in flight, whatever the frontend did to its connection
+		c16WriteTimeout = 250 * time.Millisecond
+	}
 	f := c16Start(fe, lg)
+	c16WriteTimeout = 2 * time.Minute
 	resp := make(chan bool, 1)
 	go func() {
 		ok, _, _ := c16Do(fe, f.addr, c16Req{scrape: scrape, ih: c16IH(1), pid: c16PID(1), left: 5}, c16Long)
@@ -510,6 +519,9 @@ func c16Gated(o *Out, fe int, scrape bool, mode int) {
 		healthy = c16Sig(pre.entered, c16Long)
 	} else {
 		healthy = c16Sig(post.entered, c16Long)
+	}
+	if slow {
+		time.Sleep(750 * time.Millisecond)
 	}
 	res := &c16Res{ch: f.s.Stop()}
 	if healthy && mode == 0 {
@@ -536,7 +548,7 @@ func c16Gated(o *Out, fe int, scrape bool, mode int) {
 	<-ps.Stop()
 	o.add(Case{Kind: fmt.Sprintf("gated-fe%d-mode%d", fe, mode),
 		Coq: fmt.Sprintf("CGated %d %s %d %s %s %s %s", fe, cBool(scrape), mode, cBool(b0), cBool(b1), cBool(after), cBool(hookdone)),
-		In:  map[string]interface{}{"t": "gated", "fe": fe, "scrape": scrape, "mode": mode},
+		In:  map[string]interface{}{"t": "gated", "fe": fe, "scrape": scrape, "mode": mode, "slow": slow},
 		Obs: map[string]interface{}{"delivered_while_handler_blocked": b0, "delivered_while_hook_blocked": b1, "delivered_after_gates": after,
 			"hook_finished_at_delivery": hookdone, "client_answered": gotResp, "scenario_reached_gates": healthy}})
 }
@@ -906,7 +918,7 @@ func c16Replay(o *Out, in map[string]interface{}) error {
 		}
 		c16Group(o, "replay", ms, order)
 	case "gated":
-		c16Gated(o, int(jInt(in["fe"])), jBool(in["scrape"]), int(jInt(in["mode"])))
+		c16Gated(o, int(jInt(in["fe"])), jBool(in["scrape"]), int(jInt(in["mode"])), jBool(in["slow"]))
 	case "race":
 		// the schedule is not under the driver's control here: repeat
 		for i := 0; i < 50; i++ {
@@ -1011,7 +1023,10 @@ func c16Stream(o *Out, rng *rand.Rand, n int) {
 		for fe := 0; fe < 2; fe++ {
 			for mode := 0; mode < 2; mode++ {
 				for _, scrape := range []bool{false, true} {
-					c16Gated(o, fe, scrape, mode)
+					c16Gated(o, fe, scrape, mode, false)
+					if fe == 1 {
+						c16Gated(o, fe, scrape, mode, true)
+					}
 				}
 			}
 		}
